@@ -37,23 +37,29 @@ THEOREMS = [
     "OllamaVerif.C16.counts_sum",
     "OllamaVerif.C16.noWrap_of_small",
     "OllamaVerif.C16.fit_never_when_numGPU_huge",
+    "OllamaVerif.C16.noWrap_fixed_any_overhead",
+    "OllamaVerif.C16.alloc_le_free_fixed",
+    "OllamaVerif.C16.W1_fixed_variant",
+    "OllamaVerif.C16.W2_graph_wraps_fixed",
 ]
-# Code variant the model mirrors: "0" = pinned /repo; "1" = after proposed_fixes/C16-W1.patch is applied
-# (then also set KNOWN_FINDINGS W1 to fixed; the overhead-wrap cases must no longer fail L2).
-VARIANT = "0"
+# The code variant the model must mirror (0 = pinned overhead comparisons, 1 = with fix C16-W1) is detected
+# by the driver on every run by probing the real estimator with the W1 input; it is the first argument of
+# every oracle command and is reported as driver_stats code_variant_<n>.  VERIF_C16_VARIANT overrides.
 OVERLAY = {"llm/zz_verif_c16_test.go": "llm/zz_verif_c16_test.go"}
 
 
 def run(ctx):
     ctx.lean_check(MODULES, THEOREMS)
-    env = {"VERIF_N": ctx.scale(6000, 150000), "VERIF_C16_VARIANT": os.environ.get("VERIF_C16_VARIANT", VARIANT),
+    env = {"VERIF_N": ctx.scale(6000, 150000), "VERIF_C16_VARIANT": os.environ.get("VERIF_C16_VARIANT", ""),
            "VERIF_CORPUS": os.path.join(core.ROOT, "corpus", "C16")}
     if ctx.replay:
         env["VERIF_REPLAY"] = ctx.replay_line_file()
     rc, out, outdir = ctx.go_test("./llm/", OVERLAY, "^TestVerifC16$", env=env, timeout=1500)
     if rc != 0:
         ctx.violation("driver-failed", "", out[-1500:], no_input=True)
-    ctx.read_stats(outdir)
+    st = ctx.read_stats(outdir)
+    ctx.coverage["code_variant"] = ("fixed (C16-W1 applied)" if st.get("code_variant_1") else
+                                    "pinned" if st.get("code_variant_0") else "undetected")
     ctx.l1(outdir)
     ctx.classify(ctx.l2(outdir))
     ctx.assumptions.append("derived inputs (GraphSize, tensor/KV sizes, projector requirements, overhead) are "
